@@ -9,10 +9,11 @@
 //!   H <ext> <nnodes> <nstmts> <stmt>* <op>*  |  <obs>*
 //!   stmt = S/<late>/<sid>/<mid>=<cols>,<mid>=<cols>,...
 //!   op   = X/<s>/<node>/<uc>/<psize o>/<paging ob>/<value>/<cons>/<serial o>/<ts o>/<pseed>/<haspg>
+//!        | I/<s>/<node>/<uc>/<psize>/<value>/<cons>/<serial o>/<ts o>/<pseed>/<pages>   (execute_iter: the pager fetches <pages> pages)
 //!        | B/<node>/<type>/<cons>/<serial o>/<ts o>/<items>       items: p<s>.<value> | q<text>, '+'-joined
 //!        | E/<node>/<p|e|s|i>/<s>/<arg>
 //!        | F/<node>/<resp>                                        (forced answer to the next user request at node)
-//!   obs  = O/<node>/<req>><resp>;<req>><resp>.../<outcome>        one per X / B op, in order
+//!   obs  = O/<node>/<req>><resp>;<req>><resp>.../<outcome>        one per X / B op, in order; an I op gives OI/<k> followed by k of them (one per page)
 //!   cols = '-' | name.t+name.t...   t in i b t x ;  ob = '~' none | '-' empty | hex ; o = '~' | hex
 //!   resp = r:<meta>:<paging ob>:<nrows>:<cells>:<enc cols> | v | u:<id> | d:<code> | P:<id>:<mid ob>:<cols> | z
 //!   meta = n<count> | f<cols> | i<id>=<cols> ; cells = '_' | cell+cell..  cell = N | '-' | hex
@@ -22,7 +23,12 @@ use scylla::client::execution_profile::ExecutionProfile;
 use scylla::client::session::Session;
 use scylla::client::session_builder::SessionBuilder;
 use scylla::cluster::ClusterState;
-use scylla::deserialize::row::ColumnIterator;
+use scylla::deserialize::row::{ColumnIterator, DeserializeRow};
+use scylla::deserialize::value::DeserializeValue;
+use scylla::deserialize::{DeserializationError, TypeCheckError};
+use scylla::errors::{NextPageError, NextRowError, PagerExecutionError, RequestError};
+use scylla::frame::response::result::ColumnSpec;
+use scylla::value::CqlValue;
 use scylla::errors::{DbError, ExecutionError, RequestAttemptError};
 use scylla::frame::response::result::{ColumnType, NativeType};
 use scylla::cluster::NodeRef;
@@ -92,6 +98,7 @@ enum BItem {
 #[derive(Clone, Debug)]
 enum Op {
     X { s: usize, node: usize, uc: bool, psize: Option<u32>, paging: Option<Vec<u8>>, value: Vec<u8>, cons: u16, serial: Option<u16>, ts: Option<i64>, pseed: u64, haspg: bool },
+    I { s: usize, node: usize, uc: bool, psize: u32, value: Vec<u8>, cons: u16, serial: Option<u16>, ts: Option<i64>, pseed: u64, pages: u32 },
     B { node: usize, btype: u8, cons: u16, serial: Option<u16>, ts: Option<i64>, items: Vec<BItem> },
     E { node: usize, kind: char, s: usize, arg: u64 },
     F { node: usize, resp: Resp },
@@ -274,6 +281,10 @@ impl Case {
                     pseed,
                     *haspg as u8
                 ),
+                Op::I { s, node, uc, psize, value, cons, serial, ts, pseed, pages } => format!(
+                    "I/{:x}/{:x}/{}/{:x}/{}/{:x}/{}/{}/{:x}/{:x}",
+                    s, node, *uc as u8, psize, hex_bytes(value), cons, enc_on(serial.map(|x| x as u64)), enc_ots(*ts), pseed, pages
+                ),
                 Op::B { node, btype, cons, serial, ts, items } => {
                     let it: Vec<String> = items
                         .iter()
@@ -328,6 +339,18 @@ impl Case {
                     pseed: h(p[10]),
                     haspg: p[11] == "1",
                 },
+                "I" => Op::I {
+                    s: h(p[1]) as usize,
+                    node: h(p[2]) as usize,
+                    uc: p[3] == "1",
+                    psize: h(p[4]) as u32,
+                    value: unhex(p[5]),
+                    cons: h(p[6]) as u16,
+                    serial: dec_on(p[7]).map(|x| x as u16),
+                    ts: dec_ots(p[8]),
+                    pseed: h(p[9]),
+                    pages: h(p[10]) as u32,
+                },
                 "B" => Op::B {
                     node: h(p[1]) as usize,
                     btype: h(p[2]) as u8,
@@ -375,6 +398,8 @@ struct Srv {
     pseed: u64,
     pcount: u64,
     haspg: bool,
+    pages_left: u32,
+    min_rows: u32,
 }
 
 fn gen_cell(r: &mut Rng, t: CT) -> CellV {
@@ -382,8 +407,9 @@ fn gen_cell(r: &mut Rng, t: CT) -> CellV {
         return None;
     }
     Some(match t {
-        CT::I => r.bytes(4),
-        CT::B => r.bytes(8),
+        // every byte < 128: whatever (stale) text column a cell is decoded under, it is valid UTF-8
+        CT::I => (0..4).map(|_| r.below(128) as u8).collect(),
+        CT::B => (0..8).map(|_| r.below(128) as u8).collect(),
         CT::T => (0..r.below(6)).map(|_| b'a' + r.below(26) as u8).collect(),
         CT::X => (0..r.below(7)).map(|_| r.below(128) as u8).collect(),
     })
@@ -397,14 +423,20 @@ impl Srv {
     fn payload(&mut self, cols: &[Col], paged: bool) -> (Option<Vec<u8>>, u32, Vec<CellV>) {
         let mut r = Rng::new(self.pseed.wrapping_mul(1000003).wrapping_add(self.pcount));
         self.pcount += 1;
-        let nrows = r.below(4) as u32;
+        let nrows = (r.below(4) as u32).max(self.min_rows);
         let mut cells = vec![];
         for _ in 0..nrows {
             for c in cols {
                 cells.push(gen_cell(&mut r, c.t));
             }
         }
-        let paging = if paged && self.haspg { let k = 1 + r.below(4) as usize; Some(r.bytes(k)) } else { None };
+        let paging = if paged && (self.haspg || self.pages_left > 1) {
+            self.pages_left = self.pages_left.saturating_sub(1);
+            let k = 1 + r.below(4) as usize;
+            Some(r.bytes(k))
+        } else {
+            None
+        };
         (paging, nrows, cells)
     }
     /// the specification node's answer (mirror of Coq `node_answer`)
@@ -632,18 +664,52 @@ fn serial_of(c: u16) -> SerialConsistency {
     if c == 8 { SerialConsistency::Serial } else { SerialConsistency::LocalSerial }
 }
 
+fn attempt_class(a: &RequestAttemptError) -> String {
+    match a {
+        RequestAttemptError::RepreparedIdChanged { .. } => "idchanged".into(),
+        RequestAttemptError::RepreparedIdMissingInBatch => "idmissing".into(),
+        RequestAttemptError::DbError(DbError::Unprepared { .. }, _) => "unprepared".into(),
+        RequestAttemptError::DbError(d, _) => format!("db:{:x}", d.code(&Default::default())),
+        RequestAttemptError::UnexpectedResponse(_) => "unexpected".into(),
+        RequestAttemptError::CqlResultParseError(_) | RequestAttemptError::CqlErrorParseError(_) | RequestAttemptError::BodyExtensionsParseError(_) => "parse".into(),
+        other => format!("other:{}", format!("{:?}", other).split(|c: char| !c.is_alphanumeric()).next().unwrap_or("x")),
+    }
+}
 fn err_class(e: &ExecutionError) -> String {
     match e {
-        ExecutionError::LastAttemptError(a) => match a {
-            RequestAttemptError::RepreparedIdChanged { .. } => "idchanged".into(),
-            RequestAttemptError::RepreparedIdMissingInBatch => "idmissing".into(),
-            RequestAttemptError::DbError(DbError::Unprepared { .. }, _) => "unprepared".into(),
-            RequestAttemptError::DbError(d, _) => format!("db:{:x}", d.code(&Default::default())),
-            RequestAttemptError::UnexpectedResponse(_) => "unexpected".into(),
-            RequestAttemptError::CqlResultParseError(_) | RequestAttemptError::CqlErrorParseError(_) | RequestAttemptError::BodyExtensionsParseError(_) => "parse".into(),
-            other => format!("other:{}", format!("{:?}", other).split(|c: char| !c.is_alphanumeric()).next().unwrap_or("x")),
-        },
+        ExecutionError::LastAttemptError(a) => attempt_class(a),
         other => format!("exec:{}", format!("{:?}", other).split(|c: char| !c.is_alphanumeric()).next().unwrap_or("x")),
+    }
+}
+fn page_err_class(e: &NextPageError) -> String {
+    match e {
+        NextPageError::RequestFailure(RequestError::LastAttemptError(a)) => attempt_class(a),
+        NextPageError::RequestFailure(other) => format!("exec:{}", format!("{:?}", other).split(|c: char| !c.is_alphanumeric()).next().unwrap_or("x")),
+        NextPageError::ResultMetadataParseError(_) => "parse".into(),
+        other => format!("page:{}", format!("{:?}", other).split(|c: char| !c.is_alphanumeric()).next().unwrap_or("x")),
+    }
+}
+
+/// A row as the pager hands it to a `DeserializeRow` type: the column specs it was iterated
+/// with, the raw cells, and whether each cell decodes under its column type.
+struct RawRow {
+    cols: Vec<Col>,
+    cells: Vec<CellV>,
+    typed_ok: bool,
+}
+impl<'f, 'm> DeserializeRow<'f, 'm> for RawRow {
+    fn type_check(_specs: &[ColumnSpec]) -> Result<(), TypeCheckError> {
+        Ok(())
+    }
+    fn deserialize(row: ColumnIterator<'f, 'm>) -> Result<Self, DeserializationError> {
+        let mut out = RawRow { cols: vec![], cells: vec![], typed_ok: true };
+        for c in row {
+            let c = c?;
+            out.cols.push(col_of_spec(c.spec.name(), c.spec.typ()));
+            out.typed_ok &= <Option<CqlValue> as DeserializeValue>::deserialize(c.spec.typ(), c.slice).is_ok();
+            out.cells.push(c.slice.map(|s| s.as_slice().to_vec()));
+        }
+        Ok(out)
     }
 }
 
@@ -698,8 +764,10 @@ fn outcome_of(res: Result<(scylla::response::query_result::QueryResult, PagingSt
 }
 
 async fn run_case(c: Case) -> String {
-    let mut spec = ClusterSpec::uniform("c14", &[("dc1", c.nnodes)], 1, 4, 1).with_keyspace(KeyspaceDef::simple("ks", 1));
+    // no sharding advertised: one pool connection per node on the plain port, OS-chosen source ports
+    let mut spec = ClusterSpec::uniform("c14", &[("dc1", c.nnodes)], 1, 4, 0).with_keyspace(KeyspaceDef::simple("ks", 1));
     spec.options.tablets_ext = false;
+    spec.options.shard_aware_port = None;
     spec.options.metadata_id_ext = c.ext;
     let cluster = match MockCluster::start(spec).await {
         Ok(cl) => cl,
@@ -718,6 +786,8 @@ async fn run_case(c: Case) -> String {
         pseed: 0,
         pcount: 0,
         haspg: false,
+        pages_left: 0,
+        min_rows: 0,
     }));
     {
         let srv = srv.clone();
@@ -763,25 +833,32 @@ async fn run_case(c: Case) -> String {
     while cluster.connections(None).len() < want && t.elapsed() < Duration::from_secs(10) {
         tokio::time::sleep(Duration::from_millis(2)).await;
     }
-    // prepare every statement (PREPARE goes to every node; every node then has it cached)
+    // prepare every statement: PREPARE goes to every node whose pool is connected; repeat until
+    // every node has seen it (a pool may still be connecting on a loaded machine)
     let mut prepared: Vec<PreparedStatement> = vec![];
-    for t in &texts {
-        match session.prepare(t.as_str()).await {
-            Ok(p) => prepared.push(p),
-            Err(e) => return format!("error prepare {:?}", e),
-        }
-    }
-    {
-        let mut s = srv.lock().unwrap();
-        for n in 0..c.nnodes {
-            for st in 0..ns {
-                if !s.nodes[n].prep[st] {
-                    return format!("error setup node {} did not get PREPARE of {}", n, st);
+    for (st, t) in texts.iter().enumerate() {
+        let t0 = Instant::now();
+        loop {
+            match session.prepare(t.as_str()).await {
+                Ok(p) => {
+                    let all = {
+                        let s = srv.lock().unwrap();
+                        (0..c.nnodes).all(|n| s.nodes[n].prep[st])
+                    };
+                    if all {
+                        prepared.push(p);
+                        break;
+                    }
                 }
+                Err(e) => return format!("error session prepare {:?}", e),
             }
+            if t0.elapsed() > Duration::from_secs(15) {
+                return format!("error session setup: statement {} not prepared on every node", st);
+            }
+            tokio::time::sleep(Duration::from_millis(20)).await;
         }
-        s.logging = true;
     }
+    srv.lock().unwrap().logging = true;
     cluster.drain_trace();
 
     let mut obs: Vec<String> = vec![];
@@ -816,6 +893,55 @@ async fn run_case(c: Case) -> String {
                 };
                 let out = outcome_of(res);
                 obs.push(finish_obs(&cluster, &srv, *node, out));
+            }
+            Op::I { s, node, uc, psize, value, cons, serial, ts, pseed, pages } => {
+                {
+                    let mut g = srv.lock().unwrap();
+                    g.pseed = *pseed;
+                    g.pcount = 0;
+                    g.haspg = false;
+                    g.pages_left = *pages;
+                    g.min_rows = 1;
+                    g.log.clear();
+                }
+                target.store(*node, Ordering::SeqCst);
+                let mut p = prepared[*s].clone();
+                p.set_use_cached_result_metadata(*uc);
+                p.set_consistency(cons_of(*cons));
+                p.set_serial_consistency(serial.map(serial_of));
+                p.set_timestamp(*ts);
+                p.set_page_size(*psize as i32);
+                let mut rows: Vec<RawRow> = vec![];
+                let mut final_err: Option<String> = None;
+                match session.execute_iter(p, (value.clone(),)).await {
+                    Err(PagerExecutionError::NextPageError(e)) => final_err = Some(page_err_class(&e)),
+                    Err(e) => final_err = Some(format!("exec:{}", format!("{:?}", e).split(|c: char| !c.is_alphanumeric()).next().unwrap_or("x"))),
+                    Ok(pager) => match pager.rows_stream::<RawRow>() {
+                        Err(_) => final_err = Some("parse".into()),
+                        Ok(mut st) => {
+                            use futures::StreamExt;
+                            while let Some(r) = st.next().await {
+                                match r {
+                                    Ok(row) => rows.push(row),
+                                    Err(NextRowError::NextPageError(e)) => {
+                                        final_err = Some(page_err_class(&e));
+                                        break;
+                                    }
+                                    Err(_) => {
+                                        final_err = Some("rowdecode".into());
+                                        break;
+                                    }
+                                }
+                            }
+                        }
+                    },
+                }
+                {
+                    let mut g = srv.lock().unwrap();
+                    g.pages_left = 0;
+                    g.min_rows = 0;
+                }
+                obs.push(finish_pages(&cluster, &srv, *node, rows, final_err));
             }
             Op::B { node, btype, cons, serial, ts, items } => {
                 {
@@ -886,6 +1012,66 @@ fn finish_obs(cluster: &MockCluster, srv: &Arc<Mutex<Srv>>, node: usize, out: St
     let wrong_node = log.iter().any(|(n, _, _)| *n != node);
     let xs: Vec<String> = log.iter().map(|(_, q, r)| format!("{}>{}", q, enc_resp(r))).collect();
     format!("O/{:x}/{}/{}", if wrong_node { 0xff } else { node }, if xs.is_empty() { "-".to_string() } else { xs.join(";") }, out)
+}
+
+/// Observation tokens of an execute_iter op: the handler's log cut into pages (a page = the
+/// exchanges up to the answer that ends one `execute_raw_with_consistency`), each with the rows
+/// the stream yielded for it.
+fn finish_pages(cluster: &MockCluster, srv: &Arc<Mutex<Srv>>, node: usize, rows: Vec<RawRow>, final_err: Option<String>) -> String {
+    let log: Vec<(usize, String, Resp)> = std::mem::take(&mut srv.lock().unwrap().log);
+    cluster.drain_trace();
+    let mut pages: Vec<Vec<(usize, String, Resp)>> = vec![];
+    let mut cur: Vec<(usize, String, Resp)> = vec![];
+    for e in log {
+        let is_exec = e.1.starts_with("x:");
+        let is_prep = e.1.starts_with("p:");
+        let ends = match (&e.2, is_exec, is_prep) {
+            (Resp::Unprep(_), true, _) => false,                                 // re-preparation follows
+            (Resp::Prepared { id, .. }, _, true) => {
+                // continues with a resend iff the id is the one of the EXECUTE before
+                let first_id = cur.first().and_then(|x| x.1.split(':').nth(1).map(|s| s.to_string()));
+                first_id != Some(hex_bytes(id))
+            }
+            _ => true,
+        };
+        cur.push(e);
+        if ends {
+            pages.push(std::mem::take(&mut cur));
+        }
+    }
+    if !cur.is_empty() {
+        pages.push(cur);
+    }
+    let mut toks = vec![format!("OI/{:x}", pages.len())];
+    let mut it = rows.into_iter();
+    let npages = pages.len();
+    for (j, pg) in pages.into_iter().enumerate() {
+        let wrong_node = pg.iter().any(|(n, _, _)| *n != node);
+        let xs: Vec<String> = pg.iter().map(|(_, q, r)| format!("{}>{}", q, enc_resp(r))).collect();
+        let out = match &pg.last().unwrap().2 {
+            Resp::Rows { nrows, paging, .. } if pg.last().unwrap().1.starts_with("x:") => {
+                let mine: Vec<RawRow> = it.by_ref().take(*nrows as usize).collect();
+                if mine.len() < *nrows as usize || mine.is_empty() {
+                    match (&final_err, j + 1 == npages) {
+                        (Some(e), true) => format!("e:{}", e),
+                        _ => "e:rows-missing".to_string(),
+                    }
+                } else {
+                    let cols = mine[0].cols.clone();
+                    let same = mine.iter().all(|r| r.cols == cols);
+                    let cells: Vec<CellV> = mine.iter().flat_map(|r| r.cells.clone()).collect();
+                    let typed = mine.iter().all(|r| r.typed_ok);
+                    if !same { "e:cols-change-within-page".to_string() } else { format!("R:{}:{}:{:x}*{}:{}", enc_cols(&cols), enc_ob(paging), mine.len(), enc_cells(&cells), typed as u8) }
+                }
+            }
+            _ => match (&final_err, j + 1 == npages) {
+                (Some(e), true) => format!("e:{}", e),
+                _ => "e:no-error-reported".to_string(),
+            },
+        };
+        toks.push(format!("O/{:x}/{}/{}", if wrong_node { 0xff } else { node }, xs.join(";"), out));
+    }
+    toks.join(" ")
 }
 
 // ------------------------------------------------------------------------------------------
@@ -999,6 +1185,23 @@ fn gen_case(r: &mut Rng) -> Case {
                     last_paging = Some(r.bytes(2));
                 }
             }
+            11 if !generic && stmts[s].vers.iter().all(|v| !v.cols.is_empty()) => {
+                // without the extension the pager is only driven with cached metadata off: a stale
+                // decode error in the middle of a page would leave the pager's background worker
+                // fetching further pages into the next operation's log
+                ops.push(Op::I {
+                    s,
+                    node,
+                    uc: ext && r.bool(),
+                    psize: 1 + r.below(50) as u32,
+                    value: rb0(r, 5),
+                    cons: *r.pick(&[1u16, 4, 5, 6]),
+                    serial: *r.pick(&[None, Some(8u16), Some(9)]),
+                    ts: if r.chance(1, 3) { Some(r.i64() >> r.below(40)) } else { None },
+                    pseed: r.below(1 << 20),
+                    pages: 1 + r.below(3) as u32,
+                });
+            }
             11 | 12 => {
                 let k = 1 + r.below(3) as usize;
                 let items = (0..k).map(|_| if r.chance(1, 5) { BItem::Q(r.below(4) as u32) } else { BItem::P(r.below(ns as u64) as usize, rb0(r, 4)) }).collect();
@@ -1064,17 +1267,27 @@ fn main() {
             (0..args.n).map(|_| gen_case(&mut r)).collect()
         }
     };
-    let par: usize = std::env::var("C14_PAR").ok().and_then(|s| s.parse().ok()).unwrap_or(8);
+    let par: usize = std::env::var("C14_PAR").ok().and_then(|s| s.parse().ok()).unwrap_or(6);
     let rt = tokio::runtime::Builder::new_multi_thread().worker_threads(6).enable_all().build().unwrap();
     let results: Vec<(String, String)> = rt.block_on(async move {
         use futures::stream::{self, StreamExt};
         stream::iter(cases.into_iter().map(|c| async move {
             let line = c.line();
-            let h = tokio::spawn(run_case(c));
-            let out = match h.await {
-                Ok(o) => o,
-                Err(e) => format!("error panic {}", e),
-            };
+            let mut out = String::new();
+            // a loaded machine can make session creation or a request time out: that says nothing
+            // about the property; the history is re-run from scratch (fresh cluster and session)
+            for attempt in 0..4u64 {
+                let h = tokio::spawn(run_case(c.clone()));
+                out = match h.await {
+                    Ok(o) => o,
+                    Err(e) => format!("error panic {}", e),
+                };
+                let env = out.starts_with("error session") || out.starts_with("error start-cluster") || out.contains("RequestTimeout") || out.contains("BrokenConnection") || out.contains("ConnectionPoolError");
+                if !env {
+                    break;
+                }
+                tokio::time::sleep(Duration::from_millis(200 * (attempt + 1))).await;
+            }
             (line, out)
         }))
         .buffered(par)
